@@ -23,6 +23,7 @@ import (
 	"github.com/cloudwego/hertz/pkg/common/config"
 	"github.com/cloudwego/hertz/pkg/network/netpoll"
 	"github.com/cloudwego/hertz/pkg/network/standard"
+	"github.com/cloudwego/hertz/pkg/protocol/http1/resp"
 	"pgregory.net/rapid"
 
 	"verifharness/ev"
@@ -46,6 +47,9 @@ type ConnPlan struct {
 	State    string `json:"state"`     // busy, idle, mid-request, connected
 	BodySize int    `json:"body_size"` // response body of the busy request
 	Release  string `json:"release"`   // busy only: before, after-hook, after-wait
+	// Streamed (busy only): the handler streams its response with the chunked body writer; the header
+	// block leaves with its first Write, which it makes after it has been released
+	Streamed bool `json:"streamed,omitempty"`
 }
 
 type Plan struct {
@@ -119,6 +123,8 @@ func beatLate() time.Duration { return time.Duration(atomic.LoadInt64(&maxLate))
 // cpuProbe measures CPU pressure while the scenario runs (see loadsense): the heartbeat only shows
 // that timers fire on time, not that the threads doing the work get a core. The tight bound is taken
 // only when both are quiet; tightTaken/tightSkipped count the two outcomes for the evidence.
+var knownD67 int64
+
 var (
 	cpuProbe                 *loadsense.Probe
 	tightTaken, tightSkipped int64
@@ -236,7 +242,13 @@ func runPlanInner(p *Plan) (msg string, log []string) {
 		entered <- id
 		<-release[id]
 		ctx.SetStatusCode(200)
-		ctx.Response.SetBody(respBody(p.Conns[id].BodySize, id))
+		if p.Conns[id].Streamed {
+			ctx.Response.HijackWriter(resp.NewChunkedBodyWriter(&ctx.Response, ctx.GetWriter()))
+			ctx.Write(respBody(p.Conns[id].BodySize, id)) //nolint:errcheck
+			ctx.Flush()                                   //nolint:errcheck
+		} else {
+			ctx.Response.SetBody(respBody(p.Conns[id].BodySize, id))
+		}
 		atomic.StoreInt64(&handlerDone[id], time.Now().UnixNano())
 	})
 	h.GET("/fast", func(c context.Context, ctx *app.RequestContext) { ctx.SetBodyString("fast") })
@@ -525,6 +537,14 @@ func runPlanInner(p *Plan) (msg string, log []string) {
 		if r.pr.Status != 200 || !bytes.Equal(r.pr.Body, respBody(cp.BodySize, i)) {
 			return fmt.Sprintf("connection %d: response status %d with %d body bytes, want 200 with %d bytes", i, r.pr.Status, len(r.pr.Body), cp.BodySize), log
 		}
+		if (cp.Release == "after-hook" || cp.Release == "after-hook+60ms") && !wire.HasToken(r.pr.Headers, "Connection", "close") && cp.Streamed {
+			// known finding D67: the header block of a streamed response leaves inside the handler, and the
+			// check that marks responses with Connection: close runs after the handler has returned
+			if ev.ReportKnown(prop, "D67") {
+				atomic.AddInt64(&knownD67, 1)
+				continue
+			}
+		}
 		if (cp.Release == "after-hook" || cp.Release == "after-hook+60ms") && !wire.HasToken(r.pr.Headers, "Connection", "close") {
 			return fmt.Sprintf("connection %d: the handler returned after shutdown began (released after the hook fired) but the response lacks Connection: close; headers %v", i, r.pr.Headers), log
 		}
@@ -596,6 +616,7 @@ func genPlan(t *rapid.T, transport string) *Plan {
 		if cp.State == "busy" {
 			cp.BodySize = rapid.SampledFrom([]int{1, 100, 4096, 65536, 262144}).Draw(t, "bodySize")
 			cp.Release = rapid.SampledFrom([]string{"before", "after-hook", "after-hook+60ms", "after-hook+60ms", "after-wait"}).Draw(t, "release")
+			cp.Streamed = rapid.IntRange(0, 3).Draw(t, "streamedResponse") == 0
 		}
 		p.Conns = append(p.Conns, cp)
 	}
@@ -643,6 +664,9 @@ func scenarios(t *testing.T, transport, unit string) {
 		nt, cls := classify(p)
 		rec.Case(nt, ev.HashString(fmt.Sprintf("%+v", *p)), cls...)
 		msg, log := runPlan(p)
+		if n := atomic.SwapInt64(&knownD67, 0); n > 0 {
+			rec.Excluded("D67-streamed-response-without-Connection-close", n)
+		}
 		if n := atomic.SwapInt64(&tightSkipped, 0); n > 0 {
 			rec.Class("tight-bound-not-taken-cpu-pressure-or-late-heartbeat", n)
 		}
